@@ -297,26 +297,32 @@ def oracle_c06(cases, results, seed, thorough):
     items = [it for it in items if len(it.meta.get("cparts", [])) >= 2 and not any(c.startswith("(") for c in it.meta["cparts"])]
     full = [(it.meta["id"], gen.render(it)) for it in items]
     a = expand("s1", full)
-    proj, keepers = [], {}
-    for it in items:
-        keep = it.meta["cparts"][0]
-        keepers[it.meta["id"]] = keep
-        proj.append((it.meta["id"], gen.render(project_item(it, keep))))
-    c = expand("s1", proj)
+    # project onto every counterpart in turn (not only the first one written)
     n = 0
-    for (i, s1), (_, s2) in zip(full, proj):
-        x, y = a[i], c[i]
-        if x[0] != "OK" or y[0] != "OK":
-            continue
-        n += 1
-        keep = keepers[i]
-        # impls for `keep` in the full expansion = all impls of the projection
-        enc_keep = None
-        want = split_impls(y[1])
-        got_all = split_impls(x[1])
-        got = [g for g in got_all if g in want]
-        if sorted(got) != sorted(want) or len(got_all) < len(want):
-            fails.append({"source": s1, "what": f"impls for counterpart {keep} change when the instructions for the other counterparts are removed", "detail": {"projected": s2}})
+    for turn in range(3):
+        proj, keepers = [], {}
+        for it in items:
+            if turn >= len(it.meta["cparts"]):
+                continue
+            keep = it.meta["cparts"][turn]
+            keepers[it.meta["id"]] = keep
+            proj.append((it.meta["id"], gen.render(project_item(it, keep))))
+        c = expand("s1", proj)
+        psrc = dict(proj)
+        for i, s1 in full:
+            if i not in keepers:
+                continue
+            x, y = a[i], c[i]
+            if x[0] != "OK" or y[0] != "OK":
+                continue
+            n += 1
+            keep = keepers[i]
+            # impls for `keep` in the full expansion = all impls of the projection
+            want = split_impls(y[1])
+            got_all = split_impls(x[1])
+            got = [g for g in got_all if g in want]
+            if sorted(got) != sorted(want) or len(got_all) < len(want):
+                fails.append({"source": s1, "what": f"impls for counterpart {keep} change when the instructions for the other counterparts are removed", "detail": {"projected": psrc[i]}})
     return fails, n
 
 
@@ -804,6 +810,69 @@ def oracle_c05_shadowed(seed, thorough):
         n += 1
         if a[i] != b[i]:
             fails.append({"source": s2, "what": "an infallible member instruction shadowed by its fallible twin changes the fallible expansion", "detail": {"without": s}})
+    # second pattern — the order of the steps: an into_existing conversion, fallible or not, consults the member's
+    # infallible into_existing instruction before any `into` instruction; with no Into conversion requested, adding an
+    # Into-only instruction (fallible or not) next to it must leave the expansion unchanged
+    pairs = []
+    shaped = []
+    for it0 in items:
+        # shape the item for this question: keep its From instructions, replace the Into ones by into_existing flavours
+        # (mostly fallible) for the same counterparts, and give one member an infallible into_existing instruction
+        if it0.kind != "struct" or not it0.fields:
+            continue
+        it = copy.deepcopy(it0)
+        cps = [c for c in it.meta.get("cparts", []) if not c.startswith("(")]
+        if not cps:
+            continue
+        kept = []
+        for a_ in it.attrs:
+            if a_.tag and a_.tag[0] == "trait":
+                ks, _ = gen.kinds_of(a_.name)
+                if all(k.startswith("from") for k in ks):
+                    kept.append(a_)
+            else:
+                kept.append(a_)
+        it.attrs = kept
+        for c in cps:
+            nm = r.choice(["try_into_existing", "owned_try_into_existing", "ref_try_into_existing", "try_into_existing", "into_existing"])
+            it.attrs.insert(r.randrange(len(it.attrs) + 1), gen.Instr(nm, c + (", String" if "try" in nm else ""), tag=("trait", c)))
+        f = r.choice(it.fields)
+        f.attrs = [x for x in f.attrs if not (x.tag and x.tag[0] == "mmap" and any("into" in k for k in gen.kinds_of(x.name)[0])) and not x.name.startswith("ghost") and x.name not in ("parent", "child")]
+        dedc = r.choice(cps) if r.random() < 0.4 else None
+        f.attrs.insert(r.randrange(len(f.attrs) + 1), gen.Instr(r.choice(["into_existing", "into_existing", "owned_into_existing", "ref_into_existing"]),
+                                                                 (dedc + "| " if dedc else "") + r.choice(["zz_own", "zz_own, ~.clone()"]), tag=("mmap", dedc)))
+        it.meta = dict(it.meta)
+        it.meta["id"] = it.meta["id"] + "-steps"
+        shaped.append(it)
+    for it in shaped + items:
+        req = requested_kinds(it)
+        allreq = set().union(*req.values()) if req else set()
+        if any(k in ("owned_into", "ref_into") for k, _ in allreq) or not any(k.endswith("into_existing") for k, _ in allreq):
+            continue
+        members = list(it.fields) + [f for v in it.variants for f in v.fields]
+        cands = []
+        for f in members:
+            for a_ in f.attrs:
+                if a_.tag and a_.tag[0] == "mmap" and a_.name in ("into_existing", "owned_into_existing", "ref_into_existing"):
+                    cands.append((f, a_))
+        if not cands:
+            continue
+        it2 = copy.deepcopy(it)
+        members2 = list(it2.fields) + [f for v in it2.variants for f in v.fields]
+        f, a_ = r.choice(cands)
+        f2 = members2[members.index(f)]
+        ded = (a_.args.split("|", 1)[0] + "| ") if (a_.args and a_.tag[1]) else ""
+        own = {"into_existing": ["into", "try_into"], "owned_into_existing": ["owned_into", "owned_try_into"], "ref_into_existing": ["ref_into", "ref_try_into"]}[a_.name]
+        f2.attrs.insert(r.randrange(len(f2.attrs) + 1), gen.Instr(r.choice(own), ded + r.choice(["zz_later_step", "zz_later_step, ~.clone()", "{ later_step() }"]), tag=("mmap", a_.tag[1])))
+        pairs.append((it.meta["id"], gen.render(it), gen.render(it2)))
+    a = expand("s1", [(i, s) for i, s, _ in pairs])
+    b = expand("s1", [(i, s2) for i, _, s2 in pairs])
+    for i, s, s2 in pairs:
+        if a[i][0] != "OK":
+            continue
+        n += 1
+        if a[i] != b[i]:
+            fails.append({"source": s2, "what": "an `into` member instruction changes an into_existing conversion although the member has an into_existing instruction of its own (a later step of the lookup overtakes an earlier one)", "detail": {"without": s}})
     return fails, n
 
 
@@ -932,7 +1001,14 @@ def inject_fault(it, kind, r):
             return None
         it2.attrs.insert(r.randrange(len(it2.attrs) + 1), gen.Instr(r.choice(["from_owned", "from_ref", "from", "map"]), c, tag=("trait", c)))
         f = r.choice(cands)
-        f.attrs.insert(r.randrange(len(f.attrs) + 1), gen.Instr("parent", c + "| [parent(zq_inner)] zq_t"))
+        # the untyped level sits at any depth of the nested list; other levels are typed, and may carry the same member name
+        shape = r.choice(["[parent(zq_inner)] zq_t",
+                          "[parent([parent(zq_l)] zq_m: ZqT)] zq_t",
+                          "[parent([parent(zq_l)] zq_t)] zq_m: ZqT",
+                          "[parent([parent(zq_l)] zq_t)] zq_t: ZqT",
+                          "[parent([parent([parent(zq_l)] zq_t)] zq_t: ZqT)] zq_t: ZqU",
+                          "zq_a, [parent(zq_b, [parent(zq_l)] zq_t)] zq_m: ZqT, zq_c"])
+        f.attrs.insert(r.randrange(len(f.attrs) + 1), gen.Instr("parent", c + "| " + shape))
     elif kind == "repeat-param-conflict":
         # a repeat template that covers a parameter kind, followed by an instruction of the same name that sets that
         # parameter itself without `skip_repeat` (whether or not the template sets it)
